@@ -1,5 +1,392 @@
-(* stub - replaced below *)
+(* C14 - variable-to-fixed time step conversion (dutils.var2h / c_var2h) is the
+   exact period average of the data.
+   Statements only; every proof is `exact <lemma of Proofs/Var2h*Proofs.v>`.
+
+   The kernel model is instantiated with the reals extended by a missing
+   value ([RN]: [None] = NaN), so missing and negative observations are part
+   of every statement.  Time stamps are integers (seconds).
+
+   Vocabulary (Proofs/Var2hProofs.v):
+     var2h_pre P rainfall hstart sec : stamps non-decreasing, rainfall flag 0/1,
+        P an admissible period, first stamp <= origin < some stamp;
+     pstart/pend P hstart i          : period i is [hstart+i*P, hstart+i*P+P);
+     piece rain P s e t1 t2 v1 v2    : what the kernel adds for the interval
+        (t1,v1)-(t2,v2) clipped to [s,e] (trapezoid / prorated increment * P);
+     area P rainfall sec vals s e    : the sum of the pieces of ALL intervals;
+     ivl_invalid_spec maxgap sec vals j : interval j has a missing end value,
+        an end value below the (extracted) threshold -1e-8, or is longer than
+        maxgapsec;
+     bracket P hstart sec i k        : t_k <= start of period i, and
+        start <= t_{k+1} unless k+1 is the last stamp. *)
 From Coq Require Import ZArith Bool List Reals.
-From Hy Require Import Base.Num Model.Var2h.
-Example C14_stub : True. Proof. exact I. Qed.
-Print Assumptions C14_stub.
+From Coquelicot Require Import Coquelicot.
+From Hy Require Import Base.Num Gen.ConstsC14 Model.Var2h
+  Proofs.Var2hProofs Proofs.Var2hWrapperProofs Proofs.Var2hIntegralProofs.
+Import ListNotations.
+Open Scope R_scope.
+
+(* ---- one interval -------------------------------------------------- *)
+
+(* the trapezoid term is the integral of the affine interpolant *)
+Theorem C14_trapezoid_is_integral : forall t1 t2 v1 v2 a b,
+  is_RInt (interp t1 t2 v1 v2) a b
+          ((interp t1 t2 v1 v2 b + interp t1 t2 v1 v2 a) * (b - a) / 2).
+Proof. exact trapezoid_is_integral. Qed.
+Print Assumptions C14_trapezoid_is_integral.
+
+(* level data: the piece of an interval in a period is the integral of the
+   interpolant over the part of the period inside the interval *)
+Theorem C14_piece_level_is_integral : forall P s e t1 t2 v1 v2,
+  (t1 <= t2)%Z -> (s <= e)%Z ->
+  is_RInt (interp (IZR t1) (IZR t2) v1 v2)
+          (IZR (clampZ t1 t2 s)) (IZR (clampZ t1 t2 e))
+          (piece false P s e t1 t2 v1 v2).
+Proof. exact piece_level_is_RInt. Qed.
+Print Assumptions C14_piece_level_is_integral.
+
+(* rainfall: the increment v2 spread uniformly over its interval *)
+Theorem C14_piece_rain_is_integral : forall P s e t1 t2 v1 v2,
+  (t1 <= t2)%Z -> (s <= e)%Z ->
+  is_RInt (fun _ => v2 / (IZR t2 - IZR t1) * IZR P)
+          (IZR (clampZ t1 t2 s)) (IZR (clampZ t1 t2 e))
+          (piece true P s e t1 t2 v1 v2).
+Proof. exact piece_rain_is_RInt. Qed.
+Print Assumptions C14_piece_rain_is_integral.
+
+Theorem C14_piece_rain_share : forall P s e t1 t2 v1 v2,
+  piece true P s e t1 t2 v1 v2 = v2 * rain_share s e t1 t2 * IZR P.
+Proof. exact piece_rain. Qed.
+Print Assumptions C14_piece_rain_share.
+
+Theorem C14_rain_share_range : forall s e t1 t2,
+  (t1 < t2)%Z -> 0 <= rain_share s e t1 t2 <= 1.
+Proof. exact rain_share_range. Qed.
+Print Assumptions C14_rain_share_range.
+
+(* cutting a period at m splits every piece exactly *)
+Theorem C14_piece_additive : forall rain P s m e t1 t2 v1 v2,
+  (t1 <= t2)%Z -> (s <= m <= e)%Z ->
+  piece rain P s m t1 t2 v1 v2 + piece rain P m e t1 t2 v1 v2 =
+  piece rain P s e t1 t2 v1 v2.
+Proof. exact piece_additive. Qed.
+Print Assumptions C14_piece_additive.
+
+(* ---- the kernel ------------------------------------------------------ *)
+
+(* on a non-decreasing series the kernel succeeds, returns as many values as
+   it was given and never writes the last one *)
+Theorem C14_kernel_ok : forall endcheck P rainfall maxgap hstart sec vals hinit,
+  var2h_pre P rainfall hstart sec ->
+  exists out,
+    c_var2h_RN endcheck P rainfall maxgap hstart sec vals hinit = VOk out /\
+    length out = length hinit /\
+    forall d, nth (length hinit - 1) out d = nth (length hinit - 1) hinit d.
+Proof. exact kernel_ok. Qed.
+Print Assumptions C14_kernel_ok.
+
+(* period_value: every computed value is missing or the area of its period
+   (sum over ALL intervals of the series) divided by the period length *)
+Theorem C14_period_value : forall endcheck P rainfall maxgap hstart sec vals hinit,
+  var2h_pre P rainfall hstart sec ->
+  forall out i,
+  c_var2h_RN endcheck P rainfall maxgap hstart sec vals hinit = VOk out ->
+  (i < length hinit - 1)%nat ->
+  nth i out None = None \/
+  nth i out None =
+    Some (area P rainfall sec vals (pstart P hstart (Z.of_nat i)) (pend P hstart (Z.of_nat i))
+          / IZR P).
+Proof. exact period_value. Qed.
+Print Assumptions C14_period_value.
+
+(* rainfall: area/P is the total of the shares of the increments *)
+Theorem C14_rainfall_total : forall P rainfall sec vals,
+  (0 < P)%Z -> forall s e, rainfall = 1%Z ->
+  area P rainfall sec vals s e / IZR P =
+  fold_right Rplus 0
+    (map (fun j => rv vals (S j) * rain_share s e (tsec sec j) (tsec sec (S j)))
+         (seq 0 (length sec - 1 - 0))).
+Proof. exact area_rain. Qed.
+Print Assumptions C14_rainfall_total.
+
+(* area_additive *)
+Theorem C14_area_additive : forall P rainfall sec vals,
+  sorted_secs sec -> forall s m e, (s <= m <= e)%Z ->
+  area P rainfall sec vals s m + area P rainfall sec vals m e = area P rainfall sec vals s e.
+Proof. exact area_additive. Qed.
+Print Assumptions C14_area_additive.
+
+(* conservation: over any run of non-missing periods, the values times P add
+   up to the area between the start of the first and the end of the last *)
+Theorem C14_conservation : forall endcheck P rainfall maxgap hstart sec vals hinit,
+  var2h_pre P rainfall hstart sec ->
+  forall out a m,
+  c_var2h_RN endcheck P rainfall maxgap hstart sec vals hinit = VOk out ->
+  (a + m <= length hinit - 1)%nat ->
+  (forall i, (a <= i < a + m)%nat -> nth i out None <> None) ->
+  osum out a m * IZR P =
+  area P rainfall sec vals (pstart P hstart (Z.of_nat a))
+                           (pstart P hstart (Z.of_nat a + Z.of_nat m)).
+Proof. exact conservation. Qed.
+Print Assumptions C14_conservation.
+
+(* missing_iff: relative to an index k bracketing the start of the period, a
+   period is missing exactly when an interval j >= k that starts before the
+   end of the period is invalid, or (repaired kernel) the data end before the
+   period does *)
+Theorem C14_missing_iff : forall endcheck P rainfall maxgap hstart sec vals hinit,
+  var2h_pre P rainfall hstart sec ->
+  forall out i,
+  c_var2h_RN endcheck P rainfall maxgap hstart sec vals hinit = VOk out ->
+  (i < length hinit - 1)%nat ->
+  exists k, bracket P hstart sec (Z.of_nat i) k /\
+    (nth i out None = None <->
+     (endcheck = true /\ (tsec sec (length sec - 1) < pend P hstart (Z.of_nat i))%Z) \/
+     exists j, (k <= j)%nat /\ (S j < length sec)%nat /\
+               (tsec sec j < pend P hstart (Z.of_nat i))%Z /\
+               ivl_invalid maxgap sec vals j = true).
+Proof. exact missing_iff. Qed.
+Print Assumptions C14_missing_iff.
+
+Theorem C14_invalid_meaning : forall maxgap sec vals k,
+  ivl_invalid maxgap sec vals k = true <-> ivl_invalid_spec maxgap sec vals k.
+Proof. exact ivl_invalid_iff. Qed.
+Print Assumptions C14_invalid_meaning.
+
+(* ... in terms of the data only: an invalid interval with a positive length
+   in common with the period makes it missing *)
+Theorem C14_missing_if_overlap_invalid :
+  forall endcheck P rainfall maxgap hstart sec vals hinit,
+  var2h_pre P rainfall hstart sec ->
+  forall out i j,
+  c_var2h_RN endcheck P rainfall maxgap hstart sec vals hinit = VOk out ->
+  (i < length hinit - 1)%nat ->
+  (S j < length sec)%nat ->
+  (tsec sec j < pend P hstart (Z.of_nat i))%Z ->
+  (pstart P hstart (Z.of_nat i) < tsec sec (S j))%Z ->
+  ivl_invalid_spec maxgap sec vals j -> nth i out None = None.
+Proof. exact missing_if_overlap_invalid. Qed.
+Print Assumptions C14_missing_if_overlap_invalid.
+
+(* ... and a period inside the data whose intervals (including those that
+   merely touch it) are all valid is not missing *)
+Theorem C14_present_if_valid : forall endcheck P rainfall maxgap hstart sec vals hinit,
+  var2h_pre P rainfall hstart sec ->
+  forall out i,
+  c_var2h_RN endcheck P rainfall maxgap hstart sec vals hinit = VOk out ->
+  (i < length hinit - 1)%nat ->
+  (pend P hstart (Z.of_nat i) <= tsec sec (length sec - 1))%Z ->
+  (forall j, (S j < length sec)%nat ->
+             (tsec sec j < pend P hstart (Z.of_nat i))%Z ->
+             (pstart P hstart (Z.of_nat i) <= tsec sec (S j))%Z ->
+             ~ ivl_invalid_spec maxgap sec vals j) ->
+  nth i out None =
+    Some (area P rainfall sec vals (pstart P hstart (Z.of_nat i)) (pend P hstart (Z.of_nat i))
+          / IZR P).
+Proof. exact present_if_valid. Qed.
+Print Assumptions C14_present_if_valid.
+
+(* repaired kernel: a period that extends past the last stamp is missing *)
+Theorem C14_uncovered_missing : forall endcheck P rainfall maxgap hstart sec vals hinit,
+  var2h_pre P rainfall hstart sec ->
+  forall out i, endcheck = true ->
+  c_var2h_RN endcheck P rainfall maxgap hstart sec vals hinit = VOk out ->
+  (i < length hinit - 1)%nat ->
+  (tsec sec (length sec - 1) < pend P hstart (Z.of_nat i))%Z ->
+  nth i out None = None.
+Proof. exact uncovered_missing. Qed.
+Print Assumptions C14_uncovered_missing.
+
+(* the kernel of the pinned commit is refuted: a constant series of level 3
+   whose last stamp is 10 minutes into a half-hour period gets the value 1 *)
+Theorem C14_old_kernel_partial_period_refuted :
+  exists out,
+    c_var2h_RN false 1800 0 432000 3600 w_sec w_vals w_hinit = VOk out /\
+    (tsec w_sec 3 < pend 1800 3600 2)%Z /\
+    nth 2 out None = Some 1.
+Proof. exact old_kernel_partial_period_refuted. Qed.
+Print Assumptions C14_old_kernel_partial_period_refuted.
+
+(* non-vacuity: the same series satisfies the hypotheses, and the repaired
+   kernel returns 3, 3, missing; conservation over the first two periods *)
+Example C14_pre_nonvacuous : var2h_pre 1800 0 3600 w_sec.
+Proof. exact w_pre. Qed.
+Print Assumptions C14_pre_nonvacuous.
+
+Example C14_kernel_example :
+  exists out,
+    c_var2h_RN true 1800 0 432000 3600 w_sec w_vals w_hinit = VOk out /\
+    nth 0 out None = Some 3 /\ nth 1 out None = Some 3 /\ nth 2 out None = None /\
+    osum out 0 2 * 1800 = area 1800 0 w_sec w_vals 3600 7200.
+Proof. exact fixed_kernel_example. Qed.
+Print Assumptions C14_kernel_example.
+
+(* rejections (any arithmetic instance) *)
+Theorem C14_reject_rainfall_flag : forall {T} (N : NumOps T) ie oe ec
+    P rainfall maxgap hstart sec vals hinit,
+  (rainfall < 0 \/ 1 < rainfall)%Z ->
+  c_var2h N ie oe ec P rainfall maxgap hstart sec vals hinit = VErr.
+Proof. exact @reject_rainfall. Qed.
+Print Assumptions C14_reject_rainfall_flag.
+
+Theorem C14_reject_period : forall {T} (N : NumOps T) ie oe ec
+    P rainfall maxgap hstart sec vals hinit,
+  ~ In P VAR2H_C_PERIODS ->
+  c_var2h N ie oe ec P rainfall maxgap hstart sec vals hinit = VErr.
+Proof. exact @reject_period. Qed.
+Print Assumptions C14_reject_period.
+
+Theorem C14_reject_origin_before_data : forall {T} (N : NumOps T) ie oe ec
+    P rainfall maxgap hstart t sec vals hinit,
+  (hstart < t)%Z ->
+  c_var2h N ie oe ec P rainfall maxgap hstart (t :: sec) vals hinit = VErr.
+Proof. exact @reject_origin. Qed.
+Print Assumptions C14_reject_origin_before_data.
+
+(* the error branch of the walk: an interval going backwards, met before the
+   period is finished, ends the kernel with an error *)
+Theorem C14_backwards_interval_is_error : forall {T} (N : NumOps T) ie oe ec
+    rainfall maxgap sec vals fuel Pd s e k t1 v1 hv miss,
+  nltb N t1 e = true -> nltb N (nofZ N (tsec sec (S k))) t1 = true ->
+  walk N ie oe ec rainfall maxgap sec vals (S fuel) Pd s e k t1 v1 hv miss = WErr.
+Proof. exact @walk_backwards_err. Qed.
+Print Assumptions C14_backwards_interval_is_error.
+
+(* ---- the whole series: one function of time ---------------------------- *)
+
+(* [ginterp P rainfall sec vals] is, on [t_j, t_{j+1}), the integrand of
+   interval j: the affine interpolant (level data) or P times the constant
+   rate of the increment (rainfall); it passes through the observations *)
+Theorem C14_ginterp_on_interval : forall P rainfall sec vals,
+  sorted_secs sec -> forall j t, (S j < length sec)%nat ->
+  IZR (tsec sec j) <= t < IZR (tsec sec (S j)) ->
+  ginterp P rainfall sec vals t =
+  segf (rainfall =? 1)%Z P (tsec sec j) (tsec sec (S j)) (rv vals j) (rv vals (S j)) t.
+Proof. exact ginterp_on_interval. Qed.
+Print Assumptions C14_ginterp_on_interval.
+
+Theorem C14_ginterp_at_stamp : forall P rainfall sec vals,
+  sorted_secs sec -> forall j, (rainfall =? 1)%Z = false ->
+  (S j < length sec)%nat -> (tsec sec j < tsec sec (S j))%Z ->
+  ginterp P rainfall sec vals (IZR (tsec sec j)) = rv vals j.
+Proof. exact ginterp_at_stamp. Qed.
+Print Assumptions C14_ginterp_at_stamp.
+
+(* (extended goal of DESIGN 5/C14) the area is the integral of that function
+   (Chasles over the knots; duplicate stamps allowed) *)
+Theorem C14_area_is_global_integral : forall P rainfall sec vals,
+  sorted_secs sec -> forall s e,
+  (0 < length sec)%nat -> (tsec sec 0 <= s)%Z -> (s <= e)%Z ->
+  (e <= tsec sec (length sec - 1))%Z ->
+  is_RInt (ginterp P rainfall sec vals) (IZR s) (IZR e) (area P rainfall sec vals s e).
+Proof. exact area_is_global_integral. Qed.
+Print Assumptions C14_area_is_global_integral.
+
+(* the first sentence of the property, repaired kernel: a value that is not
+   missing, times P, is the integral over its period of the piecewise
+   interpolant of the observations (rainfall: the period total of the
+   uniformly spread increments, times P) *)
+Theorem C14_period_value_is_integral : forall P rainfall maxgap hstart sec vals hinit,
+  var2h_pre P rainfall hstart sec ->
+  forall out i x,
+  c_var2h_RN true P rainfall maxgap hstart sec vals hinit = VOk out ->
+  (i < length hinit - 1)%nat ->
+  nth i out None = Some x ->
+  is_RInt (ginterp P rainfall sec vals)
+          (IZR (pstart P hstart (Z.of_nat i))) (IZR (pend P hstart (Z.of_nat i)))
+          (x * IZR P).
+Proof. exact period_value_is_integral. Qed.
+Print Assumptions C14_period_value_is_integral.
+
+(* any instance (binary64 included): the model leaves its defined domain only
+   when no stamp is later than the origin - the memory-safety contract of
+   the kernel (C05); the walk never runs out of fuel *)
+Theorem C14_undefined_only_outside_contract : forall {T} (N : NumOps T) ie oe ec
+    P rainfall maxgap hstart sec vals hinit,
+  c_var2h N ie oe ec P rainfall maxgap hstart sec vals hinit = VUndef ->
+  forall k, (k < length sec)%nat -> (tsec sec k <= hstart)%Z.
+Proof. exact @undef_only_without_stamp_after_origin. Qed.
+Print Assumptions C14_undefined_only_outside_contract.
+
+(* ---- the wrapper ----------------------------------------------------- *)
+
+(* the conversion of the index gives the wall-clock seconds for every
+   storage unit (s/ms/us/ns) and every zone offset *)
+Theorem C14_index_seconds : forall u off wall,
+  index_seconds u off (encode_index u off wall) = wall.
+Proof. exact index_seconds_encode. Qed.
+Print Assumptions C14_index_seconds.
+
+(* hence the result does not depend on the unit nor on the zone *)
+Theorem C14_unit_zone_independent : forall {T} (N : NumOps T) ie oe ec
+    u off u' off' wall vals P mg rain,
+  py_var2h N ie oe ec index_seconds u off (encode_index u off wall) vals P mg rain =
+  py_var2h N ie oe ec index_seconds u' off' (encode_index u' off' wall) vals P mg rain.
+Proof. exact @py_unit_zone_independent. Qed.
+Print Assumptions C14_unit_zone_independent.
+
+(* the conversion of the pinned commit is refuted (microseconds) *)
+Theorem C14_index_seconds_old_refuted :
+  exists u wall, index_seconds_old u 0 (encode_index u 0 wall) <> wall.
+Proof. exact index_seconds_old_refuted. Qed.
+Print Assumptions C14_index_seconds_old_refuted.
+
+Theorem C14_origin_is_next_whole_hour : forall t0,
+  (t0 < hour_origin t0 <= t0 + 3600)%Z /\ (hour_origin t0 mod 3600 = 0)%Z.
+Proof. exact hour_origin_spec. Qed.
+Print Assumptions C14_origin_is_next_whole_hour.
+
+(* the wrapper: origin, number of values, values = kernel on the wall clock,
+   last value missing; with C14_kernel_ok..C14_uncovered_missing this gives
+   the property for every unit and zone *)
+Theorem C14_wrapper : forall ec u off t0 rest vals P maxgap rain,
+  sorted_secs (t0 :: rest) ->
+  In P VAR2H_PY_PERIODS ->
+  (VAR2H_PY_MAXGAP_MIN <= maxgap)%Z ->
+  (hour_origin t0 < last (t0 :: rest) t0)%Z ->
+  exists out,
+    py_var2h_RN ec index_seconds u off (encode_index u off (t0 :: rest)) vals P maxgap rain
+      = PyOk (hour_origin t0) out /\
+    Z.of_nat (length out) = ((last (t0 :: rest) t0 - t0) / P)%Z /\
+    c_var2h_RN ec P (if rain then 1 else 0)%Z maxgap (hour_origin t0) (t0 :: rest) vals
+               (repeat None (length out)) = VOk out /\
+    (forall d, nth (length out - 1) out d = None \/ out = []).
+Proof. exact py_var2h_ok. Qed.
+Print Assumptions C14_wrapper.
+
+Theorem C14_wrapper_pre : forall t0 rest P (rain : bool),
+  sorted_secs (t0 :: rest) ->
+  In P VAR2H_PY_PERIODS ->
+  (hour_origin t0 < last (t0 :: rest) t0)%Z ->
+  var2h_pre P (if rain then 1 else 0)%Z (hour_origin t0) (t0 :: rest).
+Proof. exact wrapper_pre. Qed.
+Print Assumptions C14_wrapper_pre.
+
+(* hourly output: every computed period lies inside the data *)
+Theorem C14_hourly_periods_covered : forall t0 rest P,
+  In P VAR2H_PY_PERIODS ->
+  (hour_origin t0 < last (t0 :: rest) t0)%Z ->
+  forall (out : list (option R)) i,
+  P = 3600%Z ->
+  Z.of_nat (length out) = ((last (t0 :: rest) t0 - t0) / P)%Z ->
+  (i < length out - 1)%nat ->
+  (pend P (hour_origin t0) (Z.of_nat i) <= last (t0 :: rest) t0)%Z.
+Proof. exact hourly_periods_covered. Qed.
+Print Assumptions C14_hourly_periods_covered.
+
+Example C14_wrapper_nonvacuous :
+  sorted_secs w_sec /\ In 1800%Z VAR2H_PY_PERIODS /\ (VAR2H_PY_MAXGAP_MIN <= 432000)%Z /\
+  (hour_origin 0 < last w_sec 0)%Z /\ hour_origin 0 = 3600%Z.
+Proof. exact wrapper_example. Qed.
+Print Assumptions C14_wrapper_nonvacuous.
+
+Theorem C14_wrapper_reject_period : forall {T} (N : NumOps T) ie oe ec conv
+    u off raw vals P mg rain,
+  ~ In P VAR2H_PY_PERIODS -> py_var2h N ie oe ec conv u off raw vals P mg rain = PyErr.
+Proof. exact @py_reject_period. Qed.
+Print Assumptions C14_wrapper_reject_period.
+
+Theorem C14_wrapper_reject_maxgap : forall {T} (N : NumOps T) ie oe ec conv
+    u off raw vals P mg rain,
+  (mg < VAR2H_PY_MAXGAP_MIN)%Z -> py_var2h N ie oe ec conv u off raw vals P mg rain = PyErr.
+Proof. exact @py_reject_maxgap. Qed.
+Print Assumptions C14_wrapper_reject_maxgap.
